@@ -113,6 +113,30 @@ def run(prog, rep, tier):
         r2.ok("subscribe: rcu(register) dominates every shard lock")
     else:
         r2.fail(fv.name, "snapshot-before-register", "a shard is locked/snapshotted before the subscriber is registered: updates between snapshot and registration are lost", fv.loc())
+    # the copy-on-write list is only ever changed by an atomic read-modify-write (rcu): a load followed by a store loses a
+    # registration that lands in between, and that subscriber then misses every live event
+    n_rcu = 0
+    for k in crate_fns(prog, "rustybgpd"):
+        nm = prog.ix[k]["name"]
+        if "::tests::" in nm:
+            continue
+        cnames = [c["f"].get("name", "") for c in prog.ix[k]["calls"]]
+        if not any(re.match(r"arc_swap::.*::(rcu|store|swap|compare_and_swap)$", c) for c in cnames):
+            continue
+        fv2 = view(prog, k)
+        for b, t in fv2.calls(re.compile(r"arc_swap::.*::(rcu|store|swap|compare_and_swap)$")):
+            e = Renderer(fv2, depth=8, through_names=True).operand(t["args"][0], 8)
+            if "subscribers" not in expr_fields(e):
+                continue
+            meth = t["f"]["name"].split("::")[-1]
+            if meth == "rcu":
+                n_rcu += 1
+                r2.ok("%s: subscribers changed by rcu" % short(root_name(prog, k)))
+            else:
+                r2.fail(root_name(prog, k), "subscribers-non-atomic-update:" + meth,
+                        "the subscriber list is overwritten with ArcSwap::%s instead of an rcu read-modify-write: a registration (or removal) made by another thread between "
+                        "the load and the store is lost, so a registered subscriber silently stops receiving live events" % meth, fv2.loc(b))
+    r2.floor("rcu updates of the subscriber list", n_rcu, 2)
     sends = [(b, t) for b, t in fv.calls(re.compile(r".*UnboundedSender::<T>::send"))]
     ls = loops(fv)
     shard_loop = None
@@ -170,6 +194,9 @@ def run(prog, rep, tier):
                             "withdrawal: subscribers keep a route the RIB never stored" % kind, iv.loc(ann[kind][0]))
             elif kind not in ann:
                 r3.ok("insert_route: no %s-policy announcement precedes Table::insert" % kind)
+
+    r6 = rep.rule("R18.6", "both outcomes of the import policy are reported to post-policy Adj-RIB-In subscribers (announcement if accepted, withdrawal if rejected)")
+    check_post_policy_events(prog, r6)
 
     r5 = rep.rule("R18.5", "the subscriber-side fold keeps the last event per (peer, family, prefix, path id)")
     check_fold(prog, r5)
@@ -229,3 +256,50 @@ def _mentions_local(fv, e, local, def_block):
         if x[0] == "call" and x[3] == def_block:
             return True
     return False
+
+
+# ---------------------------------------------------------------------------------------------- R18.6
+def check_post_policy_events(prog, r):
+    """A route's post-policy state changes on either outcome of apply_import: accepted -> the post-policy view holds the new
+    attributes, rejected -> it holds nothing for that (peer, prefix, path id) any more (an earlier accepted version must go).
+    Every function that evaluates the import policy for a route it stores must therefore call notify_adj_rib_in_post on both
+    outcomes, with Some(attr) when accepted and None when rejected."""
+    n = 0
+    for k in crate_fns(prog, "rustybgpd"):
+        nm = prog.ix[k]["name"]
+        if not nm.startswith("rustybgpd::table_manager::") or "::tests::" in nm:
+            continue
+        fv = view(prog, k)
+        ai = [b for b, t in fv.calls(re.compile(r".*::apply_import$"))]
+        if not ai:
+            continue
+        if nm.endswith("::apply_import"):
+            continue
+        n += 1
+        r.analysed(nm)
+        rend = Renderer(fv, depth=8)
+        posts = []
+        for b, t in fv.calls(re.compile(r".*::notify_adj_rib_in_post$")):
+            if not any(b in fv.reach_after(a) for a in ai):
+                continue
+            e = rend.operand(t["args"][5], 8)
+            kind = e[2] if e[0] == "agg" and e[2] in ("Some", "None") else "?"
+            gs = flat_guards(fv, b)
+            fl = [l for g, l, h in gs if g[0] == "var" and g[1] == "filtered"]
+            other = [g for g, l, h in gs if g[0] == "discr" and any(c.endswith("Table::insert") for c in expr_calls(g))]
+            if other:
+                continue        # compensation after a refused insert: not the policy outcome report
+            posts.append((b, kind, fl))
+        for v, want in (("true", "None"), ("false", "Some")):
+            hit = [b for b, kind, fl in posts if all(v in l for l in fl) and kind in (want, "?")]
+            wrong = [b for b, kind, fl in posts if all(v in l for l in fl) and kind not in (want, "?")]
+            what = "rejected by the import policy" if v == "true" else "accepted by the import policy"
+            if hit:
+                r.ok("%s: route %s => post-policy %s" % (short(nm), what, "withdrawal" if want == "None" else "announcement"))
+            elif wrong:
+                r.fail(nm, "post-event-wrong-kind:filtered=" + v, "a route %s is reported to post-policy subscribers as %s" % (what, "an announcement" if want == "None" else "a withdrawal"), fv.loc(wrong[0]))
+            else:
+                r.fail(nm, "post-event-missing:filtered=" + v,
+                       "a route %s is stored without any post-policy Adj-RIB-In event: a subscriber that saw the earlier version of this (peer, prefix, path id) keeps it "
+                       "although the post-policy view no longer holds it" % what, fv.loc(ai[0]))
+    r.floor("functions evaluating the import policy for a stored route", n, 2)
